@@ -425,7 +425,7 @@ func (fr *Frame) callEffects(cc *ssa.CallCommon, eff *effects, depth int) {
 			return
 		}
 		if !c.ModAll && !c.HavocExt && len(fn.FreeVars) == 0 {
-			if comps, ok := fr.contractEffectComps(c, fn); ok {
+			if comps, ok := fr.contractEffectComps(c, fn, cc); ok {
 				for _, k := range comps {
 					eff.comps[k] = true
 				}
@@ -464,15 +464,22 @@ func (fr *Frame) callEffects(cc *ssa.CallCommon, eff *effects, depth int) {
 
 // contractEffectComps over-approximates a contract's modifies clause by whole heap components, typing the targets
 // statically from the callee's parameter types.
-func (fr *Frame) contractEffectComps(c *Contract, fn *ssa.Function) (comps []string, ok bool) {
+func (fr *Frame) contractEffectComps(c *Contract, fn *ssa.Function, cc *ssa.CallCommon) (comps []string, ok bool) {
 	vars := map[string]types.Type{}
 	ps := fn.Params
 	if o := fn.Origin(); o != nil && o != fn && len(o.Params) == len(fn.Params) {
 		ps = o.Params
 	}
 	for i, p := range ps {
-		vars[p.Name()] = fn.Params[i].Type()
-		vars[fmt.Sprintf("$%d", i)] = fn.Params[i].Type()
+		ty := fn.Params[i].Type()
+		if cc != nil && i < len(cc.Args) {
+			// an interface-typed parameter: use the static type of the value boxed at this call site
+			if mi, isMI := cc.Args[i].(*ssa.MakeInterface); isMI {
+				ty = mi.X.Type()
+			}
+		}
+		vars[p.Name()] = ty
+		vars[fmt.Sprintf("$%d", i)] = ty
 	}
 	for _, m := range c.Modifies {
 		cs, ok := fr.targetComps(m, vars, c.PkgPath)
